@@ -108,6 +108,9 @@ Eval(t, x) ==
          ELSE LET b == Eval(t.body, a.val) IN [ev |-> a.ev \o b.ev, val |-> b.val, err |-> b.err]
     \* Sh: <a> goes through a nested def / lambda whose own *parameters* are called recurse and like the overloaded
     \* function; they are bound to the identity, so the value and the events are those of <a>
+    \* Sh with form "dflt": the nested lambda captures recurse as the *default* of a parameter of the same name
+    \* (lambda v_, recurse=recurse: recurse(v_))(<a>) - the default is evaluated in the method: a recurse site after all
+    [] t.n = "Sh" /\ t.form = "dflt" -> Eval([n |-> "C", site |-> "R", arg |-> t.a, kw |-> [n |-> "null"]], x)
     [] t.n \in {"F", "W", "Sh"} -> Eval(t.a, x)
     [] OTHER -> [ev |-> <<"?">>, val |-> 0, err |-> 0 - 1]
 
